@@ -12,7 +12,8 @@ Grouping (what the code does between two awaits):
   cx ea                     -> childExitEat           cx cr(1) [rl]        -> childExit
   rd                        -> tokenRead              ct(1)                -> cheat
   de(1) st                  -> start                  rl (on its own)      -> releaseMine, or the releasing poll of wait_all
-  fr(n) cr(n) [rl] [de] [cw] [rd] rt   -> exit (n = running; IOUs = cw; rd = the token an exttop process takes back)
+  fr(n) cr(n) [rl] [de] [cw] [rd] rt   -> exit, for an exttop process exitTop (n = running; IOUs = cw; rd = the token
+                                          an exttop process takes back: the `my := 1` of the model's exitTop)
   at the very start of a process that owns its jobserver: cr(N-1) rl(N-1)  (set-up, the process keeps one token)
 Answer: `ok steps=<k> my=<n> cheats=<n> running=<n> exited=<b>` or `reject at=<index of the primitive> <reason>`.
 -/
@@ -128,15 +129,22 @@ def replay (top ext : Bool) : Nat → LS → Nat → Nat → List Prim → Excep
       let (m1, c1, r1, used) := match r with
         | .rl _ _ m' c' :: r' => (m', c', r', 3)
         | _ => (m, c, r, 2)
+      -- `(m1, c1)` are logged after the re-creation and the release, before a tree top takes its token back: they are
+      -- the counters of `.exit` for every kind of process
       match stepAs s [.exit] m1 c1 with
+      | .error w => .error (i, w)
+      | .ok s0 =>
+      -- `retake`: top of the redo tree under a foreign jobserver, about to leave with no token and no cheat
+      -- (Props/C09 `exit_top_retakes`, `exit_top_agrees_with_exit`: exactly where `.exitTop` differs from `.exit`)
+      let retake := ext && s0.my = 0 && s0.cheats = 0
+      -- the model step: `.exitTop` at the top of a redo tree under a foreign jobserver, `.exit` for everybody else
+      match stepAs s (if ext then [.exitTop] else [.exit]) (if retake then 1 else m1) c1 with
       | .error w => .error (i, w)
       | .ok s' =>
         let (d, r2) := takeDe r1
         let (w, r3) := takeCw r2
         let used := used + (if d.isSome then 1 else 0) + (if w > 0 then 1 else 0)
         let (rd, r3) := takeRd r3
-        -- `retake`: top of the redo tree under a foreign jobserver, about to leave with no token and no cheat
-        let retake := ext && s'.my = 0 && s'.cheats = 0
         let used := used + (if rd.isSome then 1 else 0)
         if d.getD 0 ≠ s'.cheats then .error (i, s!"the exit destroys {d.getD 0} tokens, the model's cheats are {s'.cheats}")
         else if retake && w ≠ 0 then .error (i, s!"the exit of the top of a redo tree under a foreign jobserver writes {w} IOUs (nobody reads them)")
@@ -144,7 +152,6 @@ def replay (top ext : Bool) : Nat → LS → Nat → Nat → List Prim → Excep
         else if !retake && rd.isSome then .error (i, "a token is read on the exit path of a process that holds one")
         else if !retake && w ≠ exitIous top s' then .error (i, s!"the exit writes {w} IOUs, the model {exitIous top s'}")
         else
-        let s' : LS := if retake then { s' with my := 1 } else s'
         match r3 with
           | .rt m2 c2 :: r4 =>
             if m2 + s'.cheats ≠ s'.my ∨ c2 ≠ s'.cheats then .error (i, "the counters logged at the end of the exit path are not the model's")
